@@ -76,6 +76,16 @@ CLAIMED = {
    note="Termination and distinctness are observed, not proved (partial). The sequence of contractions chosen by the implementation is not extracted; only its result is judged. No axioms.",
    technique="Coq invariance proof over arbitrary contraction sequences + seeded exploration judged by the closure oracle",
    design="6 C20"),
+ "C14": dict(
+   text="Proof + exhaustive/differential exploration. Proved for every n: the commutant is exactly the length-n strings commuting with every member, each once; graph edges are exactly the anticommuting pairs (i<j) labelled by their product, with the optional product-in-filter condition; the commutator-graph filter is the property's 'some member g anticommutes with P and P.g = Q'; connected components (generic algorithm, any adjacency) form a partition into internally connected classes with no edge from an earlier to a later class; pair counts. Per run: every multiset of <=2 generators at n<=2, structured/uniform n<=4 (5), mixed lengths: vertex lists, ordered edges, labels, partitions, counts, fraction, commutator graph and its components, non-commuting charges vs the model.",
+   note="networkx components are replaced by a verified components function and compared as partitions; all_strs is the index-ordered enumeration (equal to C18's gen_all for n<=5 by computation). No axioms.",
+   technique="Coq specification proofs (filters, pairs, generic connected components) + exact comparison of graphs",
+   design="6 C14"),
+ "C15": dict(
+   text="Proof + differential exploration. Model/Orbit.v's bfs is the deque/visited loop of average_otoc. Proved for every n: the visited set is exactly the orbit, each element once (C15_bfs_is_orbit); OTOC symmetric in V,W by double counting (C15_symmetric); a<=s so OTOC in [-1,1]; V fixed by G gives orbit {V}; orbits depend only on the generated algebra (orbit lemma). Per run: (G,V,W) n<=4 (6): floats vs exact rationals 1-2a/s, swapped arguments, re-presented generating sets, graph complexity vs level-BFS mean distance, fourpoint vs its definition.",
+   note="Fuel exhaustion (None) is excluded by the statements and never observed. 'distance = shortest path' for graph complexity is compared with networkx per run, not proved (partial). No axioms.",
+   technique="Coq BFS invariant proof + double-counting theorem; exact rational comparison with the implementation",
+   design="6 C15"),
  "C04": dict(
    text="Proof: Coq theorems C04_product/commute/adjoint/conj/reject hold for every n and every pair of strings, about a bit-level model of PauliString.sign/commutes_with/multiply/adjoint_map/complex_conj and the Kronecker-product matrices over Z[i]. The model is tied to /repo on every run by a correspondence run: all 16^n pairs n<=3 (n<=4 thorough) plus random pairs up to n=64 and all length mismatches, implementation vs extracted model, and numpy matrices multiplied out for n<=3.",
    note="Trusted: Coq kernel, extraction (ExtrOcamlBasic), OCaml driver, Python harness; numpy kron/@ taken as the matrices. No axioms (Print Assumptions: closed).",
